@@ -178,7 +178,7 @@ def check_program(pseed, ctx):
         ctx.violation("export_not_deterministic", case, {"which": "second export" if text != text2 else "export of a copy"}, key="export_nondet")
     # ------------------------------------------------------------------ openQASM round trip
     ctx.count("qasm_roundtrip")
-    ctx.case((tuple(prog.text()), "qasm"), nontrivial, {"program": prog.text(), "openqasm": text.splitlines()[-12:]} if ctx.evaluations % 500 == 0 else None)
+    ctx.case((tuple(prog.text()), "qasm"), nontrivial, {"program": prog.text(), "openqasm": text.splitlines()[-12:]} if ctx.counters.get("qasm_roundtrip", 0) % 150 == 1 else None)
     imported = None
     try:
         imported = CircuitDAG.from_openqasm(text)
